@@ -4,7 +4,7 @@ n="$1"; shift
 wt=$(mktemp -d /tmp/ws_${n}_XXXX); rmdir $wt
 git -C /repo worktree add -q --detach $wt HEAD || exit 3
 git -C $wt apply /verif/seeded/$n/patch.diff || { git -C /repo worktree remove --force $wt; exit 3; }
-VERIF_REPO=$wt PYTHONPATH=$wt:/verif "$@"
+VERIF_OUT=/tmp/ws_out VERIF_REPO=$wt PYTHONPATH=$wt:/verif "$@"
 rc=$?
 git -C /repo worktree remove --force $wt
 exit $rc
